@@ -216,6 +216,7 @@ def run(ctx):
     import bct
     r = ctx.nprng
     lines, pend = [], []
+    slow = {}          # function -> number of timeouts; after 2 the function is not called any more (keeps the check fast)
 
     def model(line, kind, case, impl):
         lines.append(line); pend.append((kind, case, impl))
@@ -260,8 +261,13 @@ def run(ctx):
                     case['gamma'] = str(gamma); case['qtype'] = qt
                 ctx.case(case, nontrivial=(K >= 2 and nm != 'base'))
                 ctx.count('%s:%s' % (key0, nm)); ctx.count('n=%d' % n); ctx.count('blocks=%d' % K)
+                if slow.get(fname, 0) >= 2:
+                    continue
                 try:
-                    out = call(f, c)
+                    out = call(f, c, _t=3.0)
+                except Timeout:
+                    slow[fname] = slow.get(fname, 0) + 1
+                    ctx.fail(key0 + ':relabel', 'no result within 3 s under the relabelling %s (running time depends on label values)' % nm, case); continue
                 except Exception as e:
                     ctx.fail(key0 + ':raises', 'raised %r' % (e,), case); continue
                 ctx.check(np.array_equal(c, c0), key0 + ':pure', 'the label vector was modified in place', case)
